@@ -306,6 +306,9 @@ class Fn:
                         val = ("V", "None" if tag == "Ok" else "Some")
                     else:
                         val = ("V", "Ok" if tag == "Some" else "Err")
+            m = re.match(r"<core::(option::Option|result::Result)<.*> as core::ops::try_trait::FromResidual<", c)
+            if m and c.endswith("::from_residual"):
+                val = ("V", "None" if m.group(1).startswith("option") else "Err")   # what `?` returns early is the failure variant
             cur[fidx[t["dest"]["l"]]] = val
         return tuple(cur)
 
@@ -438,6 +441,16 @@ class Fn:
         return dom
 
     def dominates(self, a, b, cleanup=False):
+        if getattr(self, "inlined", False):
+            # on an inlined view the value a helper returned decides which continuation is feasible: ask the
+            # state-sensitive question directly (every feasible path from the entry to b passes a)
+            if a == b:
+                return b in self.reach([0], cleanup=cleanup)
+            key = ("dom", a, cleanup)
+            r = self._dom.get(key)
+            if r is None:
+                r = self._dom[key] = self.reach([0], avoid_blocks=[a], cleanup=cleanup)
+            return b not in r and b in self.reach([0], cleanup=cleanup)
         d = self.dominators(cleanup)
         return b in d and a in d[b]
 
@@ -1388,6 +1401,43 @@ def discr_cond_edges(fn, prov, ty_rx, variants, place_pred=None):
         if place_pred is not None and not place_pred(info["place"]):
             continue
         out |= set(fn.variant_edges(b, variants))
+    # the predicate form of the same test: `if x.is_none() { return .. }`, `if x.is_some() { .. }`
+    pos = {"Some": ("is_some", "is_none"), "None": ("is_none", "is_some"), "Ok": ("is_ok", "is_err"), "Err": ("is_err", "is_ok")}
+    names = [pos[v] for v in variants if v in pos]
+    if names and len(names) == len(variants):
+        for b, blk in enumerate(fn.blocks):
+            t = blk["term"]
+            if t["k"] != "switch" or t["discr_ty"] != "bool" or t["discr"]["k"] == "const":
+                continue
+            for o in prov.of_operand(fn, t["discr"]):
+                calls = [v for v in o.via if v[0] == "call" and re.search(r"(option::Option::<T>|result::Result::<T, E>)::is_(some|none|ok|err)$", v[1])]
+                if len(calls) != 1 or any(v[0] in ("binop", "and") for v in o.via):
+                    continue
+                cb = calls[0][2]
+                if cb >= len(fn.blocks) or fn.blocks[cb]["term"].get("callee") != calls[0][1]:
+                    continue
+                ct = fn.blocks[cb]["term"]
+                if not rx.search(ct["arg_tys"][0]):
+                    continue
+                if place_pred is not None:
+                    a = ct["args"][0]
+                    rl, rf = root_local(fn, a)
+                    if not place_pred({"l": rl, "p": list(rf)}):
+                        continue
+                name = calls[0][1].rsplit("::", 1)[1]
+                neg = sum(1 for v in o.via if v[0] == "unop" and v[1] == "Not") % 2 == 1
+                for same, opposite in names:
+                    want = True if name == same else (False if name == opposite else None)
+                    if want is None:
+                        continue
+                    if neg:
+                        want = not want
+                    listed = [v for v, _ in t["targets"]]
+                    for (dst, lab) in fn.edges(b):
+                        v = lab[1]
+                        truth = (True if listed == [0] else (False if listed == [1] else None)) if v is None else bool(v)
+                        if truth is not None and truth == want:
+                            out.add((b, dst, lab))
     return out
 
 
